@@ -100,7 +100,7 @@ def _run_instance(mod_name, inst_name, tier):
         'name': inst_name, 'params': _jsonable(inst.get('params', {})),
         'paths': run.paths, 'infeasible': run.infeasible, 'complete': run.complete,
         'aborted': run.aborted[:5], 'n_aborted': len(run.aborted), 'errors': run.errors[:3],
-        'stats': run.stats.as_dict(), 'obligations': obs, 'reached': run.reached,
+        'stats': run.stats.as_dict(), 'xcheck': getattr(run, 'xcheck', {}), 'obligations': obs, 'reached': run.reached,
         'samples': run.samples, 'path_models': run.path_models,
         'assumptions': run.assumptions, 'wall_s': round(run.wall_s, 3),
         'functions': sorted(entered), 'files': loader.source_files(),
@@ -193,6 +193,7 @@ def conclude(pid, tier, seed, mod, mod_name, names, results, t0):
     machinery = []
     known = [k for k in load_known() if k.get('property') == pid and k.get('status') == 'known']
     known_labels = {k['obligation']: k for k in known}
+    xcheck = {}
     totals = dict(paths=0, infeasible=0, queries=0, solver_s=0.0, decisions=0, unknown=0,
                   sat=0, unsat=0)
     obligations = {}      # label -> aggregated
@@ -208,6 +209,8 @@ def conclude(pid, tier, seed, mod, mod_name, names, results, t0):
             if 'obligations' not in r:
                 continue
         totals['paths'] += r['paths']
+        for k, v in (r.get('xcheck') or {}).items():
+            xcheck[k] = xcheck.get(k, 0) + v
         totals['infeasible'] += r['infeasible']
         st = r['stats']
         for k in ('queries', 'solver_s', 'decisions', 'unknown', 'sat', 'unsat'):
@@ -342,6 +345,7 @@ def conclude(pid, tier, seed, mod, mod_name, names, results, t0):
             'queries': totals['queries'], 'solver_s': round(totals['solver_s'], 3),
             'solver_results': {'sat': totals['sat'], 'unsat': totals['unsat'], 'unknown': totals['unknown']},
             'max_query_s': round(max_query, 3),
+            'second_solver_cross_check': dict(xcheck, solver='cvc5 1.4.0 (python wheel)', sample='per harness instance the 2 proven obligation queries with the longest path condition, exported by z3 as SMT-LIB2'),
             'functions_encoded': sorted(functions),
             'source_files_instrumented': len(files),
             'bounds': getattr(mod, 'bounds', lambda t: {})(tier),
